@@ -213,6 +213,7 @@ htp_status_t htp_gzip_decompressor_decompress(htp_decompressor_t *drec1, htp_tx_
         // This is last call, so output uncompressed data so far
         dout.len = GZIP_BUF_SIZE - drec->stream.avail_out;
         if (dout.len > 0) {
+            HTP_VERIF_TP(NULL, NULL, "decomp_final_flush");
             dout.data = drec->buffer;
         } else {
             dout.data = NULL;
